@@ -38,7 +38,7 @@ CLAIMED = {
          "DESIGN.md section 5/C16"),
  'C01': ('property-based testing (rapid), model-based: generated nesting paths with render sites over special-byte-rich values; oracle = independent MiniJet reference interpreter (escape exactly once with the Set escaper, SafeWriter bypass only in last position, literal text verbatim), exact byte equality',
          "Exploration by generated search: nesting depth 0-5 over ten construct kinds (plus extends), values of many kinds and sources, three escaper configurations, all documented SafeWriters and a custom one; HTML escaping is not idempotent, so 'escaped twice' and 'not escaped' both differ from the expectation.",
-         'Trusts the reference interpreter (harness/mj) for the sub-language used; Renderer values are not generated (documented bypass); custom escapers are byte-wise (the printer legitimately writes in 4096-byte chunks).',
+         'Trusts the reference interpreter (harness/mj) for the sub-language used; a Renderer that writes through Runtime.Write is generated at direct render sites (one that writes to Runtime.Writer would be the documented raw bypass and is not); custom escapers are byte-wise (the printer legitimately writes in 4096-byte chunks).',
          'DESIGN.md section 5/C01'),
  'C05': ('property-based testing (rapid), model-based: generated nestings of if/else-if/else and range over a zoo of rangeable and non-rangeable Go values; oracle = MiniJet reference interpreter (exact output; multi-entry map ranges compared as multisets of per-entry renderings)',
          'Exploration by generated search over ranger kind x variable form x :=/= x condition kind (label histogram in the evidence), nested ranges over the same collection, empty/nil variants with else branches, truthiness of loop bindings through every binding form.',
